@@ -67,6 +67,14 @@ def plan(plan, tier, seed):
     except AnchorLost as e:
         plan.anchor_errors.append((n8, str(e)))
     plan.dropped.append(vC16.tuplepat_fns.__doc__.strip())
+    n9 = "C16.verus.pattern_matches_value.array_patterns_prefix_suffix_spread"
+    plan.ob(n9, "verus", "proved", functions=["src/interpreter/src/patterns.rs: pattern_matches_value_with_semantics (the arm for an array pattern)"],
+            what="for every array pattern, value, environment and every behaviour of the matcher on single pairs: an array pattern matches a matrix-like value iff the value has at least |prefix| + |suffix| elements (exactly that many without a spread), the prefix patterns match the first elements, the suffix patterns the last ones and the spread's binding the elements in between, tested in that order in one environment; a value that is not matrix-like does not match")
+    try:
+        plan.verus.append(VerusUnit("c16_arraypat", vC16.arraypat_unit(vlib.read_repo(vC16.PPATH), feats), {"array_arm": n9}, ["canary_arraypat"]))
+    except AnchorLost as e:
+        plan.anchor_errors.append((n9, str(e)))
+    plan.dropped.append(vC16.arraypat_fn.__doc__.strip())
     n5 = "C16.verus.try_broadcast_user_function.elementwise_over_a_matrix"
     plan.ob(n5, "verus", "proved", functions=["try_broadcast_user_function (whole body)"],
             what="a function with one input and one output of the same scalar kind, called with one matrix argument, returns the matrix of the source's shape assembled from the function applied to each element -- each element once, in element order; an error in any application is an error; in every other situation the broadcast does not apply (and applies the function to nothing)")
@@ -89,5 +97,5 @@ def plan(plan, tier, seed):
         "`#[cfg(..)]` attributes inside the match_expression guard are evaluated for the default feature set read from src/interpreter/Cargo.toml (closure of `default`); the pattern matcher reads and extends the environment it is given, 'matches' in the property = matches in a fresh environment",
     ]
     plan.assumptions += ["match_expression arm loop: pattern_matches_value_with_semantics, guard_expression_true, expression, match_validate_arm_kinds are arbitrary functions (contracts/C16/matchmodel.rs); `detached_source` / `base_env` (computed above the loop) are parameters; nothing is claimed when the option/matrix coalescing case applies to the selected arm, nor when the guard of an earlier NON-matching arm fails to evaluate (the code evaluates such guards and reports their failure; the property is silent)"]
-    plan.undecided_clauses += ["C16: of match *expressions*: the statements above the arm loop (source evaluation, the Empty / wildcard pre-check), the option/matrix coalescing case, match_validate_arm_kinds and infer_missing_enum_match_patterns themselves; termination of a recursion, non-tail recursion (through expression evaluation), the exhaustiveness pre-check of execute_function_match_arms, pattern_matches_value's array, tuple-struct and literal-comparison arms"]
+    plan.undecided_clauses += ["C16: of match *expressions*: the statements above the arm loop (source evaluation, the Empty / wildcard pre-check), the option/matrix coalescing case, match_validate_arm_kinds and infer_missing_enum_match_patterns themselves; termination of a recursion, non-tail recursion (through expression evaluation), the exhaustiveness pre-check of execute_function_match_arms, pattern_matches_value's tuple-struct and literal-comparison arms, matrix_like_values / capture_middle_matrix"]
     plan.level = "proof"
